@@ -41,23 +41,31 @@ def relerr(a, b):
 
 
 class ScriptedRandn:
-    """replaces numpy.random.randn for one sampler step"""
+    """replaces numpy.random.randn: one scripted draw per call (a single vector or a sequence of vectors)"""
     def __init__(self, e):
-        self.e = np.asarray(e, dtype=float); self.calls = 0
+        self.seq = [np.asarray(v, dtype=float) for v in e] if isinstance(e, list) else [np.asarray(e, dtype=float)]
+        self.calls = 0
     def __call__(self, *shape):
+        if self.calls >= len(self.seq):
+            raise AssertionError("more normal draws taken than scripted")
+        e = self.seq[self.calls]
         self.calls += 1
-        if tuple(shape) != (len(self.e),):
+        if tuple(shape) != (len(e),):
             raise AssertionError(f"unexpected randn shape {shape}")
-        return self.e.copy()
+        return e.copy()
 
 
 class ScriptedRng:
     """rng object handed to legacy UGLA (Normal.sample(rng=…) calls rng.normal(mean, std, (N, dim)))"""
     def __init__(self, e):
-        self.e = np.asarray(e, dtype=float); self.calls = 0
+        self.seq = [np.asarray(v, dtype=float) for v in e] if isinstance(e, list) else [np.asarray(e, dtype=float)]
+        self.calls = 0
     def normal(self, mean, std, size):
+        if self.calls >= len(self.seq):
+            raise AssertionError("more normal draws taken than scripted")
+        e = self.seq[self.calls]
         self.calls += 1
-        return (np.asarray(mean) + np.asarray(std) * self.e).reshape(size)
+        return (np.asarray(mean) + np.asarray(std) * e).reshape(size)
 
 
 class patched_randn:
@@ -332,6 +340,23 @@ class StepRunner:
             raise AssertionError(f"normal draw taken {sr.calls} times in one step")
         return out
 
+    def chain(self, draws, x_init):
+        """len(draws) CONSECUTIVE steps of the one sampler object (the state moves); returns the states"""
+        with patched_randn(list(draws)) as sr:
+            if self.iface == "exp":
+                self.s.current_point = np.array(x_init, dtype=float)
+                out = []
+                for _ in draws:
+                    self.s.step()
+                    out.append(np.array(self.s.current_point, dtype=float))
+            else:
+                self.s.x0 = np.array(x_init, dtype=float)
+                res = self.s.sample(len(draws) + 1)
+                out = [np.array(res.samples[:, t + 1], dtype=float) for t in range(len(draws))]
+        if sr.calls != len(draws):
+            raise AssertionError(f"normal draw taken {sr.calls} times in {len(draws)} steps")
+        return out
+
 
 def read_affine(runner, r, n):
     """offset and columns of the affine map e -> step(e), each step from a fresh random state"""
@@ -345,6 +370,9 @@ def read_affine(runner, r, n):
     e = r.randint(-2, 3, size=N).astype(float)
     xa = runner.step(e, r.randn(n) * 5.0)
     xb = runner.step(e, np.zeros(n))
+    # three consecutive steps of the same object
+    runner.chain_draws = [r.randint(-2, 3, size=N).astype(float) for _ in range(3)]
+    runner.chain_states = runner.chain(runner.chain_draws, r.randn(n) * 3.0)
     return m0, B, e, xa, xb
 
 
@@ -443,6 +471,7 @@ def run(ctx):
                 runner = StepRunner(cuqi, cfg, target, maxit=8 * n + 40, tol=1e-13)
                 rec["impl"] = read_affine(runner, r, n)
                 rec["leaf"] = leaf_factors(runner)
+                rec["chain"] = (runner.chain_draws, runner.chain_states)
                 rec["M_callable"] = callable(runner.s.M)
         except Exception as ex:  # refusal or crash of the implementation
             rec["impl_err"] = f"{type(ex).__name__}: {str(ex)[:160]}"
@@ -558,6 +587,14 @@ def oracle_rto(ctx, rec, key, desc, model, force=False):
     if relerr(xa, pred) > TOL or relerr(xb, pred) > TOL or relerr(xa, xb) > TOL:
         ctx.fail(key + ":state", desc, pred.tolist(), [xa.tolist(), xb.tolist()],
                  "converged step depends on the current state / is not affine in the normal draw")
+    # consecutive steps of one sampler object: every one of them is the same affine map of its own draw
+    if "chain" in rec:
+        draws, states = rec["chain"]
+        for t, (et, xt) in enumerate(zip(draws, states)):
+            if relerr(xt, m_impl + B_impl @ et) > TOL:
+                ctx.fail(key + ":chain", {**desc, "step": t + 1, "draws": [v.tolist() for v in draws]}, (m_impl + B_impl @ et).tolist(), xt.tolist(),
+                         f"step {t + 1} of a chain is not the posterior draw m + B e of its own normal draw (depends on the history)")
+                break
 
 
 # ----------------------------------------------------------------------------- exact CGLS runs
@@ -632,9 +669,10 @@ def run_ugla(ctx, cuqi, r, thorough):
                 N = m + p
                 maxit, tol = 8 * n + 40, 1e-13
 
-                def step(e, x0):
+                def step(e, x0, init=None):
+                    """one step from state x0 of a fresh sampler (exp: built and initialised at `init`, default 0)"""
                     if iface == "exp":
-                        s = em.UGLA(post, initial_point=np.zeros(n), maxit=maxit, tol=tol, beta=beta)
+                        s = em.UGLA(post, initial_point=np.zeros(n) if init is None else np.array(init, dtype=float), maxit=maxit, tol=tol, beta=beta)
                         s.initialize()
                         s.current_point = np.array(x0, dtype=float)
                         with patched_randn(e) as sr:
@@ -646,12 +684,52 @@ def run_ugla(ctx, cuqi, r, thorough):
                     res = s.sample(2)
                     assert rng.calls == 1
                     return np.array(res.samples[:, 1], dtype=float)
+
+                def chain(draws, x_init):
+                    """len(draws) CONSECUTIVE steps of ONE sampler object started at x_init; returns the states"""
+                    if iface == "exp":
+                        s = em.UGLA(post, initial_point=np.array(x_init, dtype=float), maxit=maxit, tol=tol, beta=beta)
+                        s.initialize()
+                        out = []
+                        with patched_randn(list(draws)) as sr:
+                            for _ in draws:
+                                s.step()
+                                out.append(np.array(s.current_point, dtype=float))
+                        assert sr.calls == len(draws)
+                        return out
+                    rng = ScriptedRng(list(draws))
+                    s = ls.UGLA(post, x0=np.array(x_init, dtype=float), maxit=maxit, tol=tol, beta=beta, rng=rng)
+                    res = s.sample(len(draws) + 1)
+                    assert rng.calls == len(draws)
+                    return [np.array(res.samples[:, t + 1], dtype=float) for t in range(len(draws))]
                 m0 = step(np.zeros(N), xk)
                 B = np.zeros((n, N))
                 for j in range(N):
                     e = np.zeros(N); e[j] = 1.0
                     B[:, j] = step(e, xk) - m0
                 L1 = dense(y.sqrtprec)
+                # the same step from the same state, sampler built with another history (initial point = the state itself)
+                m0_alt = step(np.zeros(N), xk, init=xk)
+                # a chain of three consecutive steps of one object; the affine map of steps 2 and 3 is re-read by
+                # re-running the prefix with the same scripted draws
+                x_init = (r.randint(-4, 5, size=n) / 2.0).astype(float)
+                f1, f2 = r.randint(-2, 3, size=N).astype(float), r.randint(-2, 3, size=N).astype(float)
+                z = np.zeros(N)
+                x1 = chain([f1], x_init)[0]
+                c2 = chain([f1, z], x_init); m2 = c2[1]
+                c3 = chain([f1, f2, z], x_init); x2, m3 = c3[1], c3[2]
+                B3 = np.zeros((n, N))
+                for j in range(N):
+                    e = np.zeros(N); e[j] = 1.0
+                    B3[:, j] = chain([f1, f2, e], x_init)[2] - m3
+                # fresh single steps from the states the chain steps started from
+                m2_fresh = step(z, x1); m3_fresh = step(z, x2)
+                B3_fresh = np.zeros((n, N))
+                for j in range(N):
+                    e = np.zeros(N); e[j] = 1.0
+                    B3_fresh[:, j] = step(e, x2) - m3_fresh
+                chain_rec = {"x_init": x_init, "f": [f1, f2], "x1": x1, "x2": x2, "m2": m2, "m3": m3, "B3": B3,
+                             "m2_fresh": m2_fresh, "m3_fresh": m3_fresh, "B3_fresh": B3_fresh, "m0_alt": m0_alt}
         except Exception as ex:
             ctx.case(f"ugla-{iface}", desc)
             ctx.note(f"UGLA refused {desc['iface']} {bc} loc={locmode}: {type(ex).__name__}: {str(ex)[:120]}")
@@ -666,11 +744,12 @@ def run_ugla(ctx, cuqi, r, thorough):
         wdoc = 1.0 / np.sqrt(tdoc ** 2 + beta)
         lines.append(f"ugla {n} {m} {qm(A)} {qv(d)} {qm(L1)} {spec_token(sp)} {p} {qm(D)} {qv(loc)} {q(s_)} {qv(w)} {q(1.0 / scale)} {qv(wdoc)}")
         Dloc_zero = not np.any(D @ loc)
-        meta.append((desc, iface, bc, locmode, Dloc_zero, scale, m0, B, A, d, sp, D, loc, wdoc))
+        meta.append((desc, iface, bc, locmode, Dloc_zero, scale, m0, B, A, d, sp, D, loc, wdoc, chain_rec, beta))
     outs = ctx.lean.drive(lines)
     hist = {}
-    for (desc, iface, bc, locmode, Dloc_zero, scale, m0, B, A, d, sp, D, loc, wdoc), o in zip(meta, outs):
+    for (desc, iface, bc, locmode, Dloc_zero, scale, m0, B, A, d, sp, D, loc, wdoc, ch, beta), o in zip(meta, outs):
         ctx.case(f"ugla-{iface}", desc)
+        ctx.case(f"ugla-chain-{iface}", {**desc, "x_init": ch["x_init"].tolist(), "draws": [v.tolist() for v in ch["f"]]})
         cls = "Dloc=0" if Dloc_zero else ("Dloc!=0:scale=1" if scale == 1.0 else "Dloc!=0:scale!=1")
         hist[cls] = hist.get(cls, 0) + 1
         key = f"ugla:{iface}:{bc}:{cls}"
@@ -691,6 +770,10 @@ def run_ugla(ctx, cuqi, r, thorough):
                 ctx.disagree(key + ":adjoint", desc, "flag 2 is not the transpose of flag 1", "-", "UGLA stacked operator"); bad = True
             if relerr(m0, mm) > TOL:
                 ctx.disagree(key + ":offset", desc, mm.tolist(), m0.tolist(), "offset of UGLA's affine map"); bad = True
+                if relerr(m0, ch["m0_alt"]) > TOL:
+                    ctx.fail(key + ":offset", {**desc, "initial_points": [[0.0] * len(m0), desc["x_k"]]}, ch["m0_alt"].tolist(), m0.tolist(),
+                             "the draw from the state x_k depends on the point the sampler was initialised at: it is not a draw "
+                             "from a Gaussian approximation at the current state")
             if relerr(B, Bm) > TOL:
                 ctx.disagree(key + ":columns", desc, "model B", "differs", "linear part of UGLA's affine map"); bad = True
             if toks[5] == "singular":
@@ -706,6 +789,32 @@ def run_ugla(ctx, cuqi, r, thorough):
         if relerr(B @ B.T, Cd) > TOL:
             ctx.fail(key + ":cov", desc, np.asarray(Cd).tolist(), (B @ B.T).tolist(),
                      "B Bᵀ of the UGLA draw is not the covariance of the documented local Gaussian approximation at the current state")
+        # ---- consecutive steps of one object (the state has moved): the draw must be a function of the current state alone ...
+        hkey = f"ugla:{iface}:{bc}:chain:history"
+        cdesc = {**desc, "x_init": ch["x_init"].tolist(), "prefix_draws": [v.tolist() for v in ch["f"]],
+                 "state_before_step2": ch["x1"].tolist(), "state_before_step3": ch["x2"].tolist()}
+        if relerr(m0, ch["m0_alt"]) > TOL:
+            ctx.fail(hkey, {**cdesc, "what": "single step from x_k, sampler initialised at 0 vs at x_k"}, ch["m0_alt"].tolist(), m0.tolist(),
+                     "UGLA draw from a given current state depends on the sampler's initial point")
+        for nm, a, b_ in (("step 2 offset", ch["m2"], ch["m2_fresh"]), ("step 3 offset", ch["m3"], ch["m3_fresh"]),
+                          ("step 3 linear part", ch["B3"], ch["B3_fresh"])):
+            if relerr(a, b_) > TOL:
+                ctx.fail(hkey, {**cdesc, "what": nm}, np.asarray(b_).tolist(), np.asarray(a).tolist(),
+                         f"{nm} of a chain differs from the same step taken by a fresh sampler from the same current state: "
+                         "the draw is not a draw from the local Gaussian approximation at the CURRENT state")
+                break
+        # ---- ... and, where the code's known location defect is invisible (D·location = 0), exactly the documented one at that state
+        if Dloc_zero:
+            for nm, xs, mo, Bo in (("step 2", ch["x1"], ch["m2"], None), ("step 3", ch["x2"], ch["m3"], ch["B3"])):
+                wd = 1.0 / np.sqrt((D @ (xs - loc)) ** 2 + beta)
+                Pq = (D.T * wd) @ D / scale
+                Cq = np.linalg.inv(A.T @ Lam @ A + Pq); mq = Cq @ (A.T @ Lam @ d + Pq @ loc)
+                if relerr(mo, mq) > TOL:
+                    ctx.fail(f"ugla:{iface}:{bc}:Dloc=0:chain:mean", {**cdesc, "what": nm}, mq.tolist(), mo.tolist(),
+                             f"offset of {nm} of a chain is not the mean of the documented local Gaussian approximation at the state the step started from")
+                if Bo is not None and relerr(Bo @ Bo.T, Cq) > TOL:
+                    ctx.fail(f"ugla:{iface}:{bc}:Dloc=0:chain:cov", {**cdesc, "what": nm}, Cq.tolist(), (Bo @ Bo.T).tolist(),
+                             f"B Bᵀ of {nm} of a chain is not the covariance of the documented local Gaussian approximation at the state the step started from")
     ctx.extra_cov["ugla_classes"] = hist
 
 
